@@ -16,7 +16,7 @@ func init() {
 			"(unmined: unconditional assignment; mined: stored flag OR-ed with the index) and append every credit; the unmined builder emits a debit for an input iff the previous output is in the unspent index or in the unmined credits; " +
 			"(R2) lookup precedence: TxDetails/UniqueTxDetails reach the unmined builder only on 'found in unmined bucket' and the mined builder only otherwise; RangeTransactions runs the unmined pass at most once; " +
 			"(R3) iterators over credits/debits bound their scan by the record-key prefix; (R4) flag-bit typing: every value that flows into a 'change' slot (bit 1 of a credit value) comes from a 'change' source and every 'spent' slot (bit 0) from a 'spent' source - " +
-			"sibling helpers with identical signatures cannot be confused. NOT decided: exactly-once reporting over histories.",
+			"sibling helpers with identical signatures cannot be confused, and rewritten credit values keep spent flag and spender reference in agreement; (R5) removal of a transaction is transitive over every output (removed transactions' descendants are not reported). NOT decided: exactly-once reporting over histories.",
 		Assumptions: []string{"credit flag byte layout: the typing is inferred from the mask constants in the code itself, not frozen"},
 		Run:         runC13,
 	})
@@ -254,6 +254,8 @@ func runC13(c *Ctx) {
 	c.Floor("C13-R3", "credit/debit iterator step functions", nIt, 3)
 
 	runFlagTyping(c, "C13-R4")
+	checkCreditRewriteFlags(c, "C13-R4")
+	checkConflictRemoval(c, "C13-R5")
 }
 
 // valueFromNilTest: v is (call(name) != nil).
